@@ -243,6 +243,9 @@ def cases_for(tier, s):
         for d_ in (3, 4) if cell == "quadrilateral" else (3,):
             R.append({"mode": "sumfact", "recipe": {"b": "tp_two_variants", "cell": cell, "tpmesh": True, "p": {"degree": d_, "arity": 1}}, "option_sets": SF})
         R.append({"mode": "sumfact", "recipe": {"b": "tp_two_variants", "cell": cell, "tpmesh": True, "p": {"degree": 3, "arity": 2}}, "option_sets": SF})
+        # non-default schemes must survive the option (non-polynomial integrands: a swapped rule of equal degree shows)
+        R.append({"mode": "sumfact", "recipe": {"b": "tp_rule_mix", "cell": cell, "tpmesh": True, "p": {"rules": [["GLL", 3]]}}, "option_sets": SF})
+        R.append({"mode": "sumfact", "recipe": {"b": "tp_rule_mix", "cell": cell, "tpmesh": True, "p": {"rules": [["GLL", 2], ["default", 4]], "bilinear": cell == "quadrilateral"}}, "option_sets": SF})
         # standard (non tensor-product) elements on the same cells
         R.append({"mode": "sumfact", "recipe": {"b": "stiff_nl", "cell": cell, "p": {"degree": 1}}, "option_sets": SF})
     # ---- diagonal
